@@ -6,7 +6,7 @@
     Not mechanised: the union bound over all openings of an adaptive program; uniformity of PRF outputs
     and of [secrets] (oracle assumptions); that a coalition of <= t parties misses a summand (C16). *)
 From Coq Require Import ZArith List Bool Znumtheory String.
-Require Import MPyC.Zp MPyC.Stat.
+Require Import MPyC.Zp MPyC.Stat MPyC.Masked MPyC.MaskBits.
 Import ListNotations.
 Local Open Scope Z_scope.
 
@@ -138,3 +138,26 @@ Example C18_row_nonvacuous :
   row_ok_at sgn true e = true /\ row_ok_at sgn false e = true /\ row_ok_at bad false e = false /\
   mask_range bad false e = 2 ^ 20.
 Proof. vm_compute. auto. Qed.
+
+(** ---- layout of the shared random bits in list / array truncation (runtime.trunc, np_trunc) ----
+    element j's low mask is the value of the slice r_bits[f*j : f*(j+1)]; the slices are disjoint and cover the
+    bit vector, so bit vectors of length f*n and mask vectors in [0,2^f)^n are in bijection: uniform independent
+    bits give uniform, mutually INDEPENDENT low masks for the n openings of one call (for all f and n). *)
+Theorem C18_low_masks_range : forall f n bs, Forall bit bs -> List.length bs = (f * n)%nat ->
+  Forall (fun m => 0 <= m < 2 ^ Z.of_nat f) (low_masks f n bs).
+Proof. exact low_masks_range. Qed.
+Print Assumptions C18_low_masks_range.
+Theorem C18_low_masks_injective : forall f n bs bs', Forall bit bs -> Forall bit bs' ->
+  List.length bs = (f * n)%nat -> List.length bs' = (f * n)%nat -> low_masks f n bs = low_masks f n bs' -> bs = bs'.
+Proof. exact low_masks_inj. Qed.
+Print Assumptions C18_low_masks_injective.
+Theorem C18_low_masks_surjective : forall f ms, Forall (fun m => 0 <= m < 2 ^ Z.of_nat f) ms ->
+  Forall bit (bits_of_masks f ms) /\ List.length (bits_of_masks f ms) = (f * List.length ms)%nat /\
+  low_masks f (List.length ms) (bits_of_masks f ms) = ms.
+Proof. exact low_masks_surj. Qed.
+Print Assumptions C18_low_masks_surjective.
+(** non-vacuity, and the overlapping layout r_bits[j : j+f] is not injective (so its masks are dependent) *)
+Example C18_low_masks_nonvacuous :
+  low_masks 3 2 [1;0;1; 0;1;1] = [5; 6] /\
+  low_masks_overlap 2 2 [0;0;0;1] = low_masks_overlap 2 2 [0;0;0;0].
+Proof. split; reflexivity. Qed.
